@@ -143,6 +143,56 @@ def run_path(entry, path, direct, outlen):
 OPMAP = {'CallSingle': 'single', 'CallBatch': 'batch', 'EvalVectorized': 'evalv', 'Reset': 'reset', 'Deactivate': 'deact'}
 
 
+def long_histories(rep, tier):
+    """One function object evaluated at a very large number of distinct points (batches, single points, repeated points): the evaluation
+    counter must keep equalling the number of distinct points since the last reset and repeated evaluations must keep returning the first
+    values - whatever size the cache has reached (residual: the point sets are too large for the trace specification's explicit `seen` set)."""
+    import sparseSpACE.Function as F
+    cases = [('GenzCornerPeak', 2, lambda: F.GenzCornerPeak(coeffs=np.array([1.0, 2.0]))),
+             ('FunctionLinear', 3, lambda: F.FunctionLinear([1.0, -2.0, 0.5])),
+             ('GenzProductPeak', 2, lambda: F.GenzProductPeak(coefficients=np.array([2.0, 3.0]), midpoint=np.array([0.5, 0.4])))]
+    nbig = 130000 if tier == 'quick' else 450000
+    for name, D, mk in (cases[:2] if tier == 'quick' else cases):
+        try:
+            with impl.quiet(), impl.watchdog(600):
+                f = mk()
+                rs = np.random.RandomState(7)
+                seen = 0
+                first = None
+                ok_count, ok_vals, where = True, True, None
+                for k in range(0, nbig, 32500):
+                    pts = rs.rand(32500, D)
+                    vals = np.asarray(f(pts), dtype=float)
+                    seen += len(pts)
+                    if first is None:
+                        first = (pts[:50].copy(), vals[:50].copy())
+                    for p in pts[:3]:      # repeated single evaluations of points already seen
+                        f(tuple(p))
+                    if int(f.get_f_dict_size()) != seen and ok_count:
+                        ok_count, where = False, (seen, int(f.get_f_dict_size()))
+                again = np.asarray(f(first[0]), dtype=float)
+                ok_vals = again.shape == first[1].shape and bool(np.allclose(again, first[1], rtol=1e-13, atol=0))
+                if int(f.get_f_dict_size()) != seen and ok_count:
+                    ok_count, where = False, (seen, int(f.get_f_dict_size()))
+                f.reset_dictionary()
+                f(first[0][:7])
+                after_reset = int(f.get_f_dict_size())
+        except impl.Timeout:
+            rep.exclude('long history %s: timeout' % name)
+            continue
+        except Exception as ex:
+            rep.violation('P_NoException', {'cls': name, 'long_history': True, 'exception': type(ex).__name__}, {'cls': name, 'exception': repr(ex)}, what='long history on %s raised %r' % (name, ex))
+            continue
+        rep.count(1, key=('long', name))
+        rep.residual('long_history_counter', ok_count and after_reset == 7)
+        rep.residual('long_history_values', ok_vals)
+        if not ok_count or after_reset != 7:
+            rep.violation('P_Counter', {'cls': name, 'long_history': True}, {'cls': name, 'distinct_points_evaluated_vs_counter': where, 'counter_after_reset_and_7_points': after_reset},
+                          what='%s: after %s distinct points the evaluation counter reads %s (after a reset and 7 points: %d)' % (name, where and where[0], where and where[1], after_reset))
+        if not ok_vals:
+            rep.violation('P_Transparent', {'cls': name, 'long_history': True}, {'cls': name}, what='%s: values of the first points changed after %d further points' % (name, seen))
+
+
 def wrapper_interplay(rep):
     """functions that wrap another function object: evaluating the wrapper must not change what the wrapped object returns
     (shared cache entries), and the wrapper's own values must stay the same on repetition, with caching on, off and after a reset"""
@@ -380,6 +430,7 @@ def run(tier, seed):
     check_poly_table(rep, tier)
     check_integrals(rep, tier, rng)
     wrapper_interplay(rep)
+    long_histories(rep, tier)
     rep.cov['rule'] = ('cache clause: for every built-in Function class (quick: one parameter set per class) every edge of the TLC graph of FunctionCache.tla '
                        '(shortest path to the source state + the edge) executed on a fresh instance; integral clause: every state of PolyIntegrals.tla '
                        'and a seeded sample of lattice boxes for the transcendental classes; distinct by (class, path) / (class, box)')
